@@ -129,6 +129,115 @@ for f in ('altair', 'bellatrix', 'capella', 'deneb'):
     EXTRA.setdefault('eth2/beacon/%s:BeaconStateView.ProcessEpoch' % f, []).append('//@   assigns ghost(n_set_score)')
 for k in ('eth2/beacon/common:ProcessSlots', 'eth2/beacon/common:StateTransition'):
     EXTRA.setdefault(k, []).append('//@   assigns ghost(n_set_score)')
+# process_effective_balance_updates (C02, hysteresis): every validator's effective balance afterwards is the spec's function
+# of its balance and of the effective balance in the flat snapshot; no other validator's effective balance changes
+PROPS['eth2/beacon/phase0:ProcessEffectiveBalanceUpdates'] = ' C02'
+_HI = '(spec.EFFECTIVE_BALANCE_INCREMENT / spec.HYSTERESIS_QUOTIENT)'
+_DN = '(%s * spec.HYSTERESIS_DOWNWARD_MULTIPLIER)' % _HI
+_UP = '(%s * spec.HYSTERESIS_UPWARD_MULTIPLIER)' % _HI
+_VJ = 'reg_val(st_vals(state), j)'
+def _bal(ver):
+    return 'bal_at(%s, st_bals(state), j)' % ver
+def _ebnew(ver, ebver):
+    b = _bal(ver)
+    return ('ite(%s + %s < flats[j].EffectiveBalance || flats[j].EffectiveBalance + %s < %s, min(%s - %s %% spec.EFFECTIVE_BALANCE_INCREMENT, spec.MAX_EFFECTIVE_BALANCE), v_eb_now(%s, %s))'
+            % (b, _DN, _UP, b, b, b, ebver, _VJ))
+_EP0 = ('old(spec != nil && state != nil && spec.HYSTERESIS_QUOTIENT != 0 && spec.EFFECTIVE_BALANCE_INCREMENT != 0 && %s < 4611686018427387904 && %s < 4611686018427387904'
+        ' && bal_len(st_bals(state)) <= len(flats)'
+        ' && (forall a, b :: {reg_val(st_vals(state), a), reg_val(st_vals(state), b)} 0 <= a && a < b && b < bal_len(st_bals(state)) ==> reg_val(st_vals(state), a) != reg_val(st_vals(state), b))'
+        ' && (forall j :: {flats[j]} 0 <= j && j < len(flats) ==> flats[j].EffectiveBalance < 4611686018427387904)'
+        ' && (forall j :: {bal_at(n_set_bal, st_bals(state), j)} bal_at(n_set_bal, st_bals(state), j) < 4611686018427387904))') % (_DN, _UP)
+EXTRA['eth2/beacon/phase0:ProcessEffectiveBalanceUpdates'] = [
+    '//@   use bal_len_nonneg',
+    '//@   assigns ghost(n_biter), ghost(biter_pos), ghost(biter_reg), ghost(n_set_eb)',
+    '//@   ensures c02_hysteresis: err == nil && ' + _EP0 + ' ==> (forall j :: {%s} 0 <= j && j < bal_len(st_bals(state)) ==> v_eb_now(n_set_eb, %s) == %s)' % (_VJ, _VJ, _ebnew('old(n_set_bal)', 'old(n_set_eb)')),
+    '//@   ensures c02_others: err == nil ==> (forall w ValI :: {v_eb_now(n_set_eb, w)} (forall j :: {%s} 0 <= j && j < bal_len(st_bals(state)) ==> %s != w) ==> v_eb_now(n_set_eb, w) == v_eb_now(old(n_set_eb), w))' % (_VJ, _VJ),
+    '//@   ensures c02_balances: n_set_bal == old(n_set_bal)',
+    '//@   loop 1',
+    '//@     invariant biter_reg == bals && bals == st_bals(state) && vals == st_vals(state) && fnid(balIterNext) == n_biter && i == biter_pos && 0 <= i && i <= bal_len(bals) && n_set_bal == old(n_set_bal) && n_set_eb >= old(n_set_eb)',
+    '//@     invariant ' + _EP0 + ' ==> (forall j :: {%s} 0 <= j && j < i ==> v_eb_now(n_set_eb, %s) == %s)' % (_VJ, _VJ, _ebnew('old(n_set_bal)', 'old(n_set_eb)')),
+    '//@     invariant ' + _EP0 + ' ==> (forall j :: {%s} i <= j && j < bal_len(st_bals(state)) ==> v_eb_now(n_set_eb, %s) == v_eb_now(old(n_set_eb), %s))' % (_VJ, _VJ, _VJ),
+    '//@     invariant forall w ValI :: {v_eb_now(n_set_eb, w)} (forall j :: {%s} 0 <= j && j < bal_len(st_bals(state)) ==> %s != w) ==> v_eb_now(n_set_eb, w) == v_eb_now(old(n_set_eb), w)' % (_VJ, _VJ)]
+_EG = '//@   assigns ghost(n_biter), ghost(biter_pos), ghost(biter_reg), ghost(n_set_eb)'
+for f in ('phase0', 'altair', 'bellatrix', 'capella', 'deneb'):
+    EXTRA.setdefault('eth2/beacon/%s:BeaconStateView.ProcessEpoch' % f, []).append(_EG)
+for k in ('eth2/beacon/common:ProcessSlots', 'eth2/beacon/common:StateTransition'):
+    EXTRA.setdefault(k, []).append(_EG)
+# process_bls_to_execution_change (C03: index, BLS prefix, pubkey hash, signature under the genesis fork version; C01: the new credentials)
+PROPS['eth2/beacon/capella:ProcessBLSToExecutionChange'] = ' C03 C01'
+_CH = 'old(op.BLSToExecutionChange)'
+_CV = 'reg_val(st_vals(state), %s.ValidatorIndex)' % _CH
+_WG = '//@   assigns ghost(n_set_wcred), ghost(set_wcred_v), ghost(set_wcred_val)'
+EXTRA['eth2/beacon/capella:ProcessBLSToExecutionChange'] = [
+    _WG,
+    '//@   ensures c03_index: err == nil && state != nil && op != nil ==> !st_vals_err(state) && !reg_len_err(st_vals(state)) && %s.ValidatorIndex < reg_len(st_vals(state))' % _CH,
+    '//@   ensures c03_bls_prefix: err == nil && state != nil && op != nil ==> v_wcred(%s)[0] == 0' % _CV,
+    '//@   ensures c03_pubkey_hash: err == nil && state != nil && op != nil ==> (forall k :: 1 <= k && k < 32 ==> v_wcred(%s)[k] == sha256(seq(%s.FromBLSPubKey))[k])' % (_CV, _CH),
+    '//@   ensures c03_signature: err == nil && state != nil && op != nil && spec != nil ==> !st_gvr_err(state) && pub_valid(%s.FromBLSPubKey) && sig_valid(old(op.Signature)) && bls_ok(%s.FromBLSPubKey, seq(signing_root(blschg_root(%s), compute_domain(common.DOMAIN_BLS_TO_EXECUTION_CHANGE, spec.GENESIS_FORK_VERSION, st_gvr(state)))), old(op.Signature))' % (_CH, _CH, _CH),
+    '//@   ensures c01_credentials: err == nil && state != nil && op != nil ==> n_set_wcred == old(n_set_wcred) + 1 && set_wcred_v == %s && set_wcred_val[0] == 1 && (forall k :: 1 <= k && k < 12 ==> set_wcred_val[k] == 0) && (forall k :: 12 <= k && k < 32 ==> set_wcred_val[k] == %s.ToExecutionAddress[k - 12])' % (_CV, _CH)]
+EXTRA.setdefault('eth2/beacon/capella:ProcessBLSToExecutionChanges', []).append(_WG)
+for f in ('capella', 'deneb'):
+    EXTRA.setdefault('eth2/beacon/%s:BeaconStateView.ProcessBlock' % f, []).append(_WG)
+for k in ('eth2/beacon/common:PostSlotTransition', 'eth2/beacon/common:StateTransition'):
+    EXTRA.setdefault(k, []).append(_WG)
+# get_flag_index_deltas / get_inactivity_penalty_deltas (C02, altair on)
+PROPS['eth2/beacon/altair:ComputeFlagDeltas'] = ' C02'
+PROPS['eth2/beacon/altair:ComputeInactivityPenaltyDeltas'] = ' C02'
+_AE = 'attesterData.EligibleIndices'
+_AF = 'attesterData.Flats'
+_AP = 'attesterData.PrevParticipation'
+_INC = 'spec.EFFECTIVE_BALANCE_INCREMENT'
+_FP0 = ('old(spec != nil && epc != nil && attesterData != nil && epc.PreviousEpoch != nil && len(%s) < 4611686018427387904 && ((epc.TotalActiveStake / spec.EFFECTIVE_BALANCE_INCREMENT) * 64) %% 18446744073709551616 != 0'
+        ' && (forall i, j :: {%s[i], %s[j]} 0 <= i && i < j && j < len(%s) ==> %s[i] != %s[j])'
+        ' && (forall j :: {%s[j]} 0 <= j && j < len(%s) ==> %s[j] < len(%s)))') % (_AF, _AE, _AE, _AE, _AE, _AE, _AE, _AE, _AE, _AF)
+_UPB = 'max(part_sum(%s, %s, epc.PreviousEpoch.ActiveIndices, flag, len(epc.PreviousEpoch.ActiveIndices)), %s)' % (_AF, _AP, _INC)
+_BRPI = '(mul64(%s, spec.BASE_REWARD_FACTOR) / epc.TotalActiveStakeSqRoot)' % _INC
+def _base(e):
+    return 'mul64(%s[%s].EffectiveBalance / %s, %s)' % (_AF, e, _INC, _BRPI)
+def _part(e, flag):
+    return '(!%s[%s].Slashed && %s[%s] & %s != 0)' % (_AF, e, _AP, e, flag)
+def _frew(e):
+    return 'ite(%s && !isInactivityLeak, mul64(mul64(%s, weight), %s / %s) / (((epc.TotalActiveStake / %s) * 64) %% 18446744073709551616), 0)' % (_part(e, 'flag'), _base(e), _UPB, _INC, _INC)
+def _fpen(e):
+    return 'ite(!%s && flag != 4, mul64(%s, weight) / 64, 0)' % (_part(e, 'flag'), _base(e))
+_EJ = _AE + '[j]'
+EXTRA['eth2/beacon/altair:ComputeFlagDeltas'] = [
+    '//@   opt rangeindex=on',
+    '//@   opt mul=opaque',
+    '//@   use mul64_range',
+    '//@   ensures c02_shape: err == nil ==> r0 != nil && len(r0.Rewards) == old(len(%s)) && len(r0.Penalties) == old(len(%s))' % (_AF, _AF),
+    '//@   ensures c02_rewards: err == nil && ' + _FP0 + ' ==> (forall j :: {%s} 0 <= j && j < len(%s) ==> r0.Rewards[%s] == old(%s))' % (_EJ, _AE, _EJ, _frew(_EJ)),
+    '//@   ensures c02_penalties: err == nil && ' + _FP0 + ' ==> (forall j :: {%s} 0 <= j && j < len(%s) ==> r0.Penalties[%s] == old(%s))' % (_EJ, _AE, _EJ, _fpen(_EJ)),
+    '//@   ensures c02_others: err == nil && ' + _FP0 + ' ==> (forall k :: {r0.Rewards[k]} {r0.Penalties[k]} 0 <= k && k < len(r0.Rewards) && (forall j :: {%s} 0 <= j && j < len(%s) ==> %s != k) ==> r0.Rewards[k] == 0 && r0.Penalties[k] == 0)' % (_EJ, _AE, _EJ),
+    '//@   loop 1',
+    '//@     invariant out != nil && len(out.Rewards) == len(%s) && len(out.Penalties) == len(%s) && valCount == len(%s)' % (_AF, _AF, _AF),
+    '//@     invariant unslashedParticipatingTotalBalance == part_sum(%s, %s, epc.PreviousEpoch.ActiveIndices, flag, rangeindex + 1)' % (_AF, _AP),
+    '//@     invariant forall k :: {out.Rewards[k]} {out.Penalties[k]} 0 <= k && k < len(out.Rewards) ==> out.Rewards[k] == 0 && out.Penalties[k] == 0',
+    '//@   loop 2',
+    '//@     invariant out != nil && len(out.Rewards) == len(%s) && len(out.Penalties) == len(%s)' % (_AF, _AF),
+    '//@     invariant unslashedParticipatingIncrements == %s / %s && activeIncrements == epc.TotalActiveStake / %s && baseRewardPerIncrement == %s' % (_UPB, _INC, _INC, _BRPI),
+    '//@     invariant ' + _FP0 + ' ==> (forall j :: {%s} 0 <= j && j <= rangeindex ==> out.Rewards[%s] == %s)' % (_EJ, _EJ, _frew(_EJ)),
+    '//@     invariant ' + _FP0 + ' ==> (forall j :: {%s} 0 <= j && j <= rangeindex ==> out.Penalties[%s] == %s)' % (_EJ, _EJ, _fpen(_EJ)),
+    '//@     invariant ' + _FP0 + ' ==> (forall k :: {out.Rewards[k]} {out.Penalties[k]} 0 <= k && k < len(out.Rewards) && (forall j :: {%s} 0 <= j && j <= rangeindex ==> %s != k) ==> out.Rewards[k] == 0 && out.Penalties[k] == 0)' % (_EJ, _EJ)]
+def _ipen(e):
+    return 'ite(!%s, mul64(%s[%s].EffectiveBalance, score_at(n_set_score, inactivityScores, %s)) / mul64(spec.INACTIVITY_SCORE_BIAS, inactivityPenaltyQuotient), 0)' % (_part(e, '2'), _AF, e, e)
+_IQ0 = ('old(spec != nil && epc != nil && attesterData != nil && inactivityScores != nil && len(%s) < 4611686018427387904 && mul64(spec.INACTIVITY_SCORE_BIAS, inactivityPenaltyQuotient) != 0'
+        ' && (forall i, j :: {%s[i], %s[j]} 0 <= i && i < j && j < len(%s) ==> %s[i] != %s[j])'
+        ' && (forall j :: {%s[j]} 0 <= j && j < len(%s) ==> %s[j] < len(%s)))') % (_AF, _AE, _AE, _AE, _AE, _AE, _AE, _AE, _AE, _AF)
+EXTRA['eth2/beacon/altair:ComputeInactivityPenaltyDeltas'] = [
+    '//@   opt rangeindex=on',
+    '//@   opt mul=opaque',
+    '//@   use mul64_range',
+    '//@   ensures c02_shape: err == nil ==> r0 != nil && len(r0.Rewards) == old(len(%s)) && len(r0.Penalties) == old(len(%s)) && n_set_score == old(n_set_score)' % (_AF, _AF),
+    '//@   ensures c02_penalties: err == nil && ' + _IQ0 + ' ==> (forall j :: {%s} 0 <= j && j < len(%s) ==> r0.Penalties[%s] == old(%s))' % (_EJ, _AE, _EJ, _ipen(_EJ)),
+    '//@   ensures c02_no_rewards: err == nil ==> (forall k :: {r0.Rewards[k]} 0 <= k && k < len(r0.Rewards) ==> r0.Rewards[k] == 0)',
+    '//@   ensures c02_others: err == nil && ' + _IQ0 + ' ==> (forall k :: {r0.Penalties[k]} 0 <= k && k < len(r0.Penalties) && (forall j :: {%s} 0 <= j && j < len(%s) ==> %s != k) ==> r0.Penalties[k] == 0)' % (_EJ, _AE, _EJ),
+    '//@   loop 1',
+    '//@     invariant out != nil && len(out.Rewards) == len(%s) && len(out.Penalties) == len(%s) && n_set_score == old(n_set_score)' % (_AF, _AF),
+    '//@     invariant penaltyDenominator == mul64(spec.INACTIVITY_SCORE_BIAS, inactivityPenaltyQuotient)',
+    '//@     invariant forall k :: {out.Rewards[k]} 0 <= k && k < len(out.Rewards) ==> out.Rewards[k] == 0',
+    '//@     invariant ' + _IQ0 + ' ==> (forall j :: {%s} 0 <= j && j <= rangeindex ==> out.Penalties[%s] == %s)' % (_EJ, _EJ, _ipen(_EJ)),
+    '//@     invariant ' + _IQ0 + ' ==> (forall k :: {out.Penalties[k]} 0 <= k && k < len(out.Penalties) && (forall j :: {%s} 0 <= j && j <= rangeindex ==> %s != k) ==> out.Penalties[k] == 0)' % (_EJ, _EJ)]
 # end-of-epoch resets (C02): when they fire and with which epoch
 for n in ('ProcessEth1DataReset', 'ProcessSlashingsReset', 'ProcessRandaoMixesReset', 'ProcessHistoricalRootsUpdate'):
     PROPS['eth2/beacon/phase0:' + n] = ' C02'
@@ -179,6 +288,8 @@ for f in ('phase0', 'altair', 'bellatrix', 'capella', 'deneb'):
 for k in ('common:ProcessSlots', 'common:StateTransition', 'common:PostSlotTransition', 'phase0:ProcessEpochRegistryUpdates', 'deneb:ProcessEpochRegistryUpdates',
           'phase0:ProcessVoluntaryExits', 'deneb:ProcessVoluntaryExits', 'phase0:ProcessProposerSlashings', 'phase0:ProcessAttesterSlashings'):
     EXTRA.setdefault('eth2/beacon/' + k, []).append(_VG)
+for k in ('eth2/beacon/phase0:ProcessEpochRewardsAndPenalties', 'eth2/beacon/altair:ProcessEpochRewardsAndPenalties'):
+    EXTRA.setdefault(k, []).append('//@   assigns ghost(n_biter), ghost(biter_pos), ghost(biter_reg)')
 sig = re.compile(r'^func (\((\w+) (\*?)(\w+)\) )?(\w+)\((.*)\) (.*) \{$')
 out = collections.defaultdict(list)
 for root, _, files in os.walk(os.path.join(REPO, 'eth2/beacon')):
